@@ -774,16 +774,17 @@ theorem C19_pyeq_equivalence :
     different objects (`1` and `1.0`, `0.0` and `-0.0`, inside any of the eight classes): for any
     primitive hash functions that agree on integral floats (CPython's numeric hash invariant) and
     any way of combining field hashes, `a == b` implies `hash(a) == hash(b)` (also: both unhashable) -/
-theorem C19_pyhash_respects_eq (H : PyHasher) (hfi : ∀ n : Int, H.float n = H.int n) (a b : PyVal)
-    (h : PyVal.beq a b = true) : pyHash H a = pyHash H b := pyhash_respects H hfi a b h
+theorem C19_pyhash_respects_eq (hf : String → Option (List String)) (H : PyHasher)
+    (hfi : ∀ n : Int, H.float n = H.int n) (a b : PyVal)
+    (h : PyVal.beq a b = true) : pyHash hf H a = pyHash hf H b := pyhash_respects hf H hfi a b h
 
 /-- what a hand-written hash reads: two objects of a class that agree (`==`) on the hashed fields
     hash alike, whatever their other fields hold -/
-theorem C19_pyhash_reads_only (H : PyHasher) (cls : String)
-    (names : List String) (vals vals' : List PyVal) (fs : List String) (hf : hashFields cls = some fs)
-    (hagree : ∀ f ∈ fs, ((names.zip (pyHashList H vals)).lookup f) = ((names.zip (pyHashList H vals')).lookup f)) :
-    pyHash H (.obj cls names vals) = pyHash H (.obj cls names vals') := by
-  simp only [pyHash, hf]
+theorem C19_pyhash_reads_only (hf : String → Option (List String)) (H : PyHasher) (cls : String)
+    (names : List String) (vals vals' : List PyVal) (fs : List String) (hfs : hf cls = some fs)
+    (hagree : ∀ f ∈ fs, ((names.zip (pyHashList hf H vals)).lookup f) = ((names.zip (pyHashList hf H vals')).lookup f)) :
+    pyHash hf H (.obj cls names vals) = pyHash hf H (.obj cls names vals') := by
+  simp only [pyHash, hfs]
   congr 2
   exact List.map_congr_left fun f hfm => by rw [hagree f hfm]
 
@@ -856,17 +857,23 @@ example : PyVal.beq featI featF = false := by decide +kernel
 example : PyVal.beq (.float 0 true) (.float 0 false) = true ∧ PyVal.beq (.int 0) (.float 0 true) = true := by
   decide +kernel
 example (H : PyHasher) :
-    pyHash H featI = some (H.combine "Feature" [H.combine "Term" [H.str "n"], H.int 1]) := rfl
+    pyHash hashFields H featI = some (H.combine "Feature" [H.combine "Term" [H.str "n"], H.int 1]) := rfl
 -- the hash does not read the label: unequal objects may collide, equal ones must
 example (H : PyHasher) :
-    pyHash H featF = some (H.combine "Feature" [H.combine "Term" [H.str "n"], H.float 1]) := rfl
-example (H : PyHasher) (hfi : ∀ n : Int, H.float n = H.int n) : pyHash H featI = pyHash H featF := by
+    pyHash hashFields H featF = some (H.combine "Feature" [H.combine "Term" [H.str "n"], H.float 1]) := rfl
+example (H : PyHasher) (hfi : ∀ n : Int, H.float n = H.int n) : pyHash hashFields H featI = pyHash hashFields H featF := by
   have h1 : H.float 1 = H.int 1 := by simpa using hfi 1
   show some (H.combine "Feature" [H.combine "Term" [H.str "n"], H.int 1])
     = some (H.combine "Feature" [H.combine "Term" [H.str "n"], H.float 1])
   rw [h1]
-example (H : PyHasher) : pyHash H (.obj "Recording" ["uuid"] [.str "u"]) = none := rfl
-example (H : PyHasher) : pyHash H (.list []) = none := rfl
+example (H : PyHasher) : pyHash hashFields H (.obj "Recording" ["uuid"] [.str "u"]) = none := rfl
+example (H : PyHasher) : pyHash hashFields H (.list []) = none := rfl
+-- the table the check extracts, as it instantiates the theorem
+example : tableOf [("Term", ["name"]), ("Tag", ["term", "value"])] "Tag" = hashFields "Tag" := by decide
+example (H : PyHasher) (hfi : ∀ n : Int, H.float n = H.int n) :
+    pyHash (tableOf [("Term", ["name"]), ("Feature", ["term", "value"])]) H featI
+      = pyHash (tableOf [("Term", ["name"]), ("Feature", ["term", "value"])]) H featG :=
+  C19_pyhash_respects_eq _ H hfi featI featG (by decide +kernel)
 end Examples
 
 end SE.Proofs.C19
